@@ -98,12 +98,14 @@ auto histogram_matching(
         {
             start--;
         }
+        // the key above the cursor; the largest key has none (do not read past the end of ref_keys)
+        RefKeyType const next_key = static_cast<std::size_t>(start + 1) < ref_keys.size()
+            ? std::get<0>(ref_keys[start + 1])
+            : ref_max;
         if (std::abs(cumltv_refhist[ref_keys[start]] - src_val) >
-            std::abs(cumltv_refhist(std::min<RefKeyType>(ref_max, std::get<0>(ref_keys[start + 1]))) -
-                src_val))
+            std::abs(cumltv_refhist(next_key) - src_val))
         {
-            inverse_mapping[std::get<0>(src_keys[j])] =
-                std::min<RefKeyType>(ref_max, std::get<0>(ref_keys[start + 1]));
+            inverse_mapping[std::get<0>(src_keys[j])] = next_key;
         }
         else
         {
